@@ -47,15 +47,15 @@ ASSUMPTIONS = [
     "one compile-relevant option differs per environment pair",
 ]
 NSHARDS = {"quick": 16, "thorough": 16}
-BUDGET_S = {"quick": 45, "thorough": 600}
+BUDGET_S = {"quick": 90, "thorough": 900}
 FLOORS = {
-    "quick": {"evaluations": 5000, "distinct": 2500,
+    "quick": {"evaluations": 4000, "distinct": 2000,
               "counters": {"crash_cases": 35, "real_deaths": 4, "crash_write_events": 23,
-                           "crash_audit_events": 12, "reader_loads": 80, "trunc_offsets": 1000,
-                           "header_byte_flips": 30, "foreign_version_entries": 14,
+                           "crash_audit_events": 12, "reader_loads": 80, "trunc_offsets": 750,
+                           "header_byte_flips": 22, "foreign_version_entries": 15,
                            "shared_histories": 600, "shared_loads": 1250, "shared_cache_hits": 230,
-                           "memcached_loads": 1800, "memcached_client_get": 2600,
-                           "memcached_client_set": 2500}},
+                           "memcached_loads": 1300, "memcached_client_get": 1900,
+                           "memcached_client_set": 1800}},
     "thorough": {"evaluations": 20000, "distinct": 8000,
                  "counters": {"crash_cases": 70, "real_deaths": 60, "crash_write_events": 100,
                               "crash_audit_events": 100, "reader_loads": 600, "trunc_offsets": 6000,
@@ -299,7 +299,7 @@ def check_reader(ctx, cache_dir, src_dir, case, ev, how):
         ctx.violation(tag + ":clear-raises", res["clear"], full)
 
 
-def crash_series(ctx, store, tname, lk, prior, flush, want, real_deaths):
+def crash_series(ctx, store, tname, lk, prior, flush, want, real_deaths, only_real=False):
     """One writer run in this process with directory snapshots at the events
     in `want(k)`; each snapshot is what a death at that event leaves.  For
     `real_deaths(k)` a forked writer really os._exit()s there as well and
@@ -321,21 +321,27 @@ def crash_series(ctx, store, tname, lk, prior, flush, want, real_deaths):
                           dict(base, part="crash", k=-1))
         events = rec["events"]
         final_sizes = {sz for kind, sz in disk_state(cache_dir) if kind == "entry"}
-        if ctx.shard == 0 and not flush:
+        if ctx.shard == 0 and not flush and not only_real:
             ctx.sample({"part": "crash", **base, "events_of_the_load": events})
             ctx.extra[f"crash_points_{tname}_{lk}_{int(prior)}"] = len(events)
-        ctx.count("crash_series")
+        if not only_real:
+            ctx.count("crash_series")
         for k in rec["snapped"]:
             ev = events[k - 1]
             sdir = os.path.join(snap_dir, f"k{k}")
             st = disk_state(sdir)
-            ctx.count("crash_cases")
-            ctx.count("crash_write_events" if not ev.startswith("audit:") else "crash_audit_events")
-            ctx.count("disk_state:" + state_class(st, final_sizes))
-            ctx.dist(("crash", tname, lk, prior, ev, events[:k].count(ev), flush))
             case = dict(base, k=k)
-            check_reader(ctx, sdir, src_dir, case, ev, "snapshot")
+            if not only_real:
+                ctx.count("crash_cases")
+                ctx.count("crash_write_events" if not ev.startswith("audit:")
+                          else "crash_audit_events")
+                ctx.count("disk_state:" + state_class(st, final_sizes))
+                ctx.dist(("crash", tname, lk, prior, ev, events[:k].count(ev), flush))
+                check_reader(ctx, sdir, src_dir, case, ev, "snapshot")
             if real_deaths(k):
+                if ctx.out_of_time():
+                    ctx.count("real_deaths_skipped_time")
+                    continue
                 c2, s2 = setup_series(ctx, store, tname, lk, prior)
                 try:
                     a2 = writer_args(c2, s2, lk, TEMPLATES[tname][1], flush, crash_at=k)
@@ -370,19 +376,27 @@ def crash_plan(quick):
     return combos
 
 
-def part_crash(ctx, store, quick):
+def part_crash(ctx, store, quick, real=False):
+    """real=False: every crash point as a directory snapshot.  real=True: the
+    writer is really killed (forked child, os._exit) at the same points and
+    the directory it leaves is compared with the snapshot and loaded from.
+    Process creation is very expensive on the shared machine, so quick does
+    that for the 16 points of one series (one per shard), thorough for all."""
     si = 0
     for tname, lk, prior in crash_plan(quick):
         for flush in (False, True):
             si += 1
+            if real and quick and si != 4:
+                continue
             if ctx.out_of_time():
-                ctx.inconc("time box hit inside the crash-point enumeration")
+                if real:
+                    ctx.count("real_deaths_skipped_time")
+                else:
+                    ctx.inconc("time box hit inside the crash-point enumeration")
                 return
-            # process creation is very expensive on the shared machine: quick kills for real
-            # at the 16 points of one series (one per shard), thorough at every point
-            real = (lambda k: True) if not quick else (lambda k, _s=si: _s == 4)
             crash_series(ctx, store, tname, lk, prior, flush,
-                         want=lambda k, _s=si: ctx.mine(_s * 400 + k), real_deaths=real)
+                         want=lambda k, _s=si: ctx.mine(_s * 400 + k),
+                         real_deaths=lambda k: real, only_real=real)
 
 
 def crash_case(ctx, store, case):
@@ -458,12 +472,12 @@ def foreign_buckets(code, checksum):
 def part_damaged(ctx, store, quick):
     import jinja2.bccache as B
 
-    plan = [("small", "dict", 1), ("combined", "dict", 1), ("small", "fs", 1)]
+    plan = [("small", "dict", 1), ("small", "fs", 1)]
     if quick:
         plan += [("big", "dict", 97)]
     else:
-        plan += [("medium", "dict", 1), ("medium", "fs", 1), ("combined", "fs", 1), ("big", "dict", 7),
-                 ("big", "fs", 13)]
+        plan += [("combined", "dict", 1), ("medium", "dict", 1), ("medium", "fs", 1),
+                 ("combined", "fs", 1), ("big", "dict", 7), ("big", "fs", 13)]
     cache_dir, src_dir = store.fresh()
     idx = 0
     for tname, lk, stride in plan:
@@ -496,8 +510,17 @@ def part_damaged(ctx, store, quick):
             check_damaged(ctx, cache_dir, loader, exp, path, f"truncated-entry:{reg}-region",
                           f"entry of {len(data)} bytes truncated to {off} bytes ({reg} region)",
                           {"part": "trunc", "tname": tname, "loader": lk, "off": off})
-        # -- every single-byte change of the header before the checksum ("another magic")
+        # -- every single-byte change of the header before the checksum ("another magic");
+        #    the payload is valid marshal data of DIFFERENT code (what another interpreter's
+        #    or cache version's entry is), so trusting the entry shows in the output
         magic_end = regions[0] if regions[0] is not None else 2
+        code_start = regions[1]
+        other_payload = None
+        if code_start is not None:
+            from jinja2 import Environment
+
+            ocode = Environment().compile("FOREIGN CODE {{ x }}", NAME, None)
+            other_payload = marshal.dumps(ocode)
         for pos in range(magic_end):
             for delta in (1, 0x80):
                 idx += 1
@@ -505,11 +528,13 @@ def part_damaged(ctx, store, quick):
                     continue
                 d2 = bytearray(data)
                 d2[pos] = (d2[pos] + delta) % 256
+                if other_payload is not None:
+                    d2 = d2[:code_start] + other_payload
                 put(path, bytes(d2))
                 ctx.count("header_byte_flips")
                 ctx.dist(("flip", tname, lk, pos, delta))
                 check_damaged(ctx, cache_dir, loader, exp, path, "foreign-header",
-                              f"header byte {pos} changed by {delta}",
+                              f"header byte {pos} changed by {delta}, payload = other code",
                               {"part": "flip", "tname": tname, "loader": lk, "pos": pos,
                                "delta": delta})
         # -- entries of another interpreter version (real writer code, spoofed version)
@@ -519,15 +544,17 @@ def part_damaged(ctx, store, quick):
             bc = B.BytecodeCache()
             checksum = bc.get_source_checksum(src)
             for ver, blob in foreign_buckets(code, checksum):
-                for payload in ("own", "garbage"):
+                for payload in ("own", "garbage", "other-code"):
                     idx += 1
                     if not ctx.mine(idx):
                         continue
                     if blob == data:
                         ctx.count("foreign_version_same_bytes")
                         continue
-                    b2 = blob if payload == "own" else blob[:len(blob) - len(data) + code_start] \
-                        + b"\x00\xffnot marshal data of this interpreter\x00" * 3
+                    head = blob[:len(blob) - len(data) + code_start]
+                    b2 = blob if payload == "own" else head + (
+                        b"\x00\xffnot marshal data of this interpreter\x00" * 3
+                        if payload == "garbage" else other_payload)
                     put(path, b2)
                     ctx.count("foreign_version_entries")
                     ctx.dist(("foreign", tname, lk, ver, payload))
@@ -815,6 +842,8 @@ def part_memcached(ctx, quick):
                 idx += 1
                 if not ctx.mine(idx):
                     continue
+                if quick and not ignore and off > 120 and off % 4:
+                    continue    # quick: with ignore off only the header densely
                 if ctx.out_of_time():
                     ctx.inconc("time box hit inside the memcached enumeration")
                     return
@@ -844,7 +873,8 @@ def run(ctx):
         for name, fn in (("crash", lambda: part_crash(ctx, store, quick)),
                          ("damaged", lambda: part_damaged(ctx, store, quick)),
                          ("shared", lambda: part_shared(ctx, store, quick)),
-                         ("memcached", lambda: part_memcached(ctx, quick))):
+                         ("memcached", lambda: part_memcached(ctx, quick)),
+                         ("real_deaths", lambda: part_crash(ctx, store, quick, real=True))):
             t0 = ctx.elapsed()
             fn()
             ctx.extra[f"shard_seconds_{name}"] = round(ctx.elapsed() - t0, 2)
@@ -884,8 +914,13 @@ def replay_damaged(ctx, store, case):
         put(path, data[:case["off"]])
         key = f"truncated-entry:{region_of(case['off'], regions)}-region"
     elif part == "flip":
+        from jinja2 import Environment
+
         d2 = bytearray(data)
         d2[case["pos"]] = (d2[case["pos"]] + case["delta"]) % 256
+        if regions[1] is not None:
+            d2 = d2[:regions[1]] + marshal.dumps(
+                Environment().compile("FOREIGN CODE {{ x }}", NAME, None))
         put(path, bytes(d2))
         key = "foreign-header"
     elif part == "foreign":
@@ -893,7 +928,11 @@ def replay_damaged(ctx, store, case):
         checksum = B.BytecodeCache().get_source_checksum(src)
         blob = dict(foreign_buckets(code, checksum))[case["ver"]]
         if case["payload"] != "own":
-            blob = blob[:len(blob) - len(data) + regions[1]] + b"\x00\xffnot marshal data\x00" * 3
+            from jinja2 import Environment
+
+            blob = blob[:len(blob) - len(data) + regions[1]] + (
+                b"\x00\xffnot marshal data\x00" * 3 if case["payload"] == "garbage" else
+                marshal.dumps(Environment().compile("FOREIGN CODE {{ x }}", NAME, None)))
         put(path, blob)
         key = "foreign-interpreter-entry"
     else:
